@@ -45,6 +45,7 @@ def enclosing_cmds(p, target, acc=()):
 
 class C06(Property):
     pid = "C06"
+    exact_text = True
     quick_n = 3000
     thorough_n = 120000
     partial = ["that the stderr text carries the conversion/guard message is a theorem about Model/Message.v (tied byte for byte for "
